@@ -26,7 +26,8 @@ def run_examples(prop, header, examples, nshard=None, timeout=600, per_file=300)
         with open(path, "w") as f:
             f.write(header + "\n")
             for name, stmt in exs:
-                f.write(f"Example {name} : {stmt}.\nProof. vm_compute. reflexivity. Qed.\n")
+                one_line = " ".join(stmt.split("\n"))      # two lines per example: the failing line identifies the example
+                f.write(f"Example {name} : {one_line}.\nProof. vm_compute. reflexivity. Qed.\n")
         try:
             p = subprocess.run(["coqc", "-noglob", "-Q", vlib.COQ, "Resolvo", path], cwd=d,
                                stdout=subprocess.PIPE, stderr=subprocess.STDOUT, text=True, timeout=timeout)
